@@ -181,6 +181,67 @@ fn gen_meta_input(rng: &mut Rng, thorough: bool) -> String {
     out
 }
 
+/// Inputs for the collector (C18): some context that makes the builder hold element pointers, a
+/// script pause inside it, closers, and tags that make the builder use those pointers again.
+fn gen_gc_input(rng: &mut Rng) -> String {
+    // families pair a context with the closers and the follow-up tags that make the builder use
+    // the pointers it kept (head pointer, form pointer, formatting list, table / select / template state)
+    let families: [(&[&str], &[&str], &[&str]); 8] = [
+        (&["<head></head>", "</head>", "<head>", "<head></head><template>", "</head><template>", "<head><template>"],
+         &["", "</template>", "</head>", "</template></head>"],
+         &["<title>t</title>", "<meta>", "<link>", "<style></style>", "<base>", "<template>", "<script></script>", "x"]),
+        (&["<form>", "<table><form>", "<form><template>", "<form><div>", "<body><form><table>", "<form><select>"],
+         &["", "</form>", "</template>", "</table>", "</div>", "</select>"],
+         &["<input>", "<input name=a>", "<button>", "<select>", "<textarea>", "<fieldset>", "<object>", "<img>"]),
+        (&["<b><i>", "<a><b><p>", "<p><b>", "<b><table>", "<font><font>", "<nobr>", "<a><table><tr><td>", "<b><template>"],
+         &["", "</b>", "</a>", "</p>", "</i>", "</table>", "</td></tr></table>", "</template>"],
+         &["x", "<p>y", "<b>z", "text", "<a>", "<div>", "<nobr>", "<table>"]),
+        (&["<table>", "<table><tr>", "<table><tr><td>", "<table><caption>", "<table><colgroup>", "<table><tbody>"],
+         &["", "</td>", "</tr>", "</table>", "</caption>", "</tbody>"],
+         &["x", "<tr>", "<td>", "<caption>", "<col>", "<tbody>", "<input type=hidden>", "<form>", "<b>"]),
+        (&["<select>", "<select><option>", "<select><optgroup>", "<select><button><selectedcontent>", "<table><select>"],
+         &["", "</option>", "</select>", "</optgroup>", "</button>"],
+         &["<option>", "<option selected>o", "<optgroup>", "<hr>", "<input>", "x", "<select>"]),
+        (&["<template>", "<div><template shadowrootmode=open>", "<template><template>", "<template><table>", "<template><tr>"],
+         &["", "</template>", "</template></template>", "</div>", "</table>"],
+         &["<td>", "<tr>", "x", "<div>", "<template>", "<col>", "<title>"]),
+        (&["<svg>", "<svg><foreignObject>", "<math><mi>", "<svg><desc><b>", "<math><annotation-xml encoding='text/html'>", "<svg><title>"],
+         &["", "</svg>", "</foreignObject>", "</math>", "</b>", "</desc>"],
+         &["<p>", "<b>", "x", "<svg>", "<mglyph>", "<table>", "<font color=x>"]),
+        (&["<frameset>", "<frameset><frame>", "<body>", "<html><body>", "<body><div>", "<li><ul><li>", "<dl><dd><dl>", "<ruby><rb><rt>"],
+         &["", "</frameset>", "</body>", "</html>", "</div>", "</li>", "</dd>", "</ul>"],
+         &["<noframes>", "<frame>", "x", "<div>", "<li>", "<dd>", "<dt>", "<rt>", "<body a=b>", "<html c=d>"]),
+    ];
+    let scripts = ["<script></script>", "<script>s</script>", "<svg><script></script></svg>", "<script></script><script></script>"];
+    let (pres, closers, tails) = *rng.pick(&families);
+    let mut out = String::new();
+    if rng.chance(1, 6) {
+        out.push_str("<!DOCTYPE html>");
+    }
+    out.push_str(rng.pick_str(pres));
+    if rng.chance(1, 4) {
+        let (p2, _, _) = *rng.pick(&families);
+        out.push_str(rng.pick_str(p2));
+    }
+    out.push_str(rng.pick_str(&scripts));
+    for _ in 0..rng.range(0, 2) {
+        out.push_str(rng.pick_str(closers));
+    }
+    for _ in 0..rng.range(1, 3) {
+        out.push_str(rng.pick_str(tails));
+        if rng.chance(1, 4) {
+            out.push_str(rng.pick_str(&scripts));
+        }
+        if rng.chance(1, 4) {
+            out.push_str(rng.pick_str(closers));
+        }
+    }
+    if rng.chance(1, 5) {
+        out = gen_html::mutate(rng, &out);
+    }
+    out
+}
+
 /// Pathological inputs for totality (C04).
 fn gen_pathological(rng: &mut Rng, thorough: bool) -> String {
     let scale = if thorough { 4 } else { 1 };
@@ -300,6 +361,7 @@ impl HtmlWorld {
                 };
                 (input, p)
             },
+            HProp::C18 if rng.chance(1, 3) => (gen_gc_input(rng), gen_tree_pipeline(rng, true, true)),
             HProp::C05 | HProp::C18 => {
                 let mut input = gen_input(rng, thorough);
                 if self.prop == HProp::C18 && rng.chance(2, 3) {
@@ -349,7 +411,24 @@ impl HtmlWorld {
             }
         }
         let _ = &mut opts;
-        let schedule = gen_schedule(rng, &input, self.knobs());
+        let mut schedule = gen_schedule(rng, &input, self.knobs());
+        if self.prop == HProp::C18 && rng.chance(1, 2) {
+            // make the collector bite: the script edits the DOM at the first pauses and a collection
+            // follows at every suspension
+            for at in 0..3usize {
+                let remove: Vec<u32> = (0..rng.range(1, 3)).map(|_| rng.below(1 << 20) as u32).collect();
+                match schedule.pauses.iter_mut().find(|p| p.at == at) {
+                    Some(p) => {
+                        if p.remove.is_empty() {
+                            p.remove = remove;
+                        }
+                    },
+                    None => schedule.pauses.push(crate::schedule::PauseAct { at, deliver_before_resume: 0, inject: None, remove }),
+                }
+            }
+            schedule.pauses.sort_by_key(|p| p.at);
+            schedule.collect_at = (0..(schedule.cuts.len() + 8).min(64)).collect();
+        }
         (HtmlCase { input, opts, pipeline, schedule }, flip)
     }
 }
@@ -540,11 +619,13 @@ fn check_c04(obs: &RunObs) -> Result<(), Violation> {
     Ok(())
 }
 
+/// lb[i] = line breaks (LF, CR, CRLF once) in the first i BYTES of s.
 fn linebreak_prefix(s: &str) -> Vec<u32> {
-    let mut lb = vec![0u32];
-    let mut prev = '\0';
-    for c in s.chars() {
-        let inc = (c == '\r' || (c == '\n' && prev != '\r')) as u32;
+    let mut lb = Vec::with_capacity(s.len() + 1);
+    lb.push(0u32);
+    let mut prev = 0u8;
+    for &c in s.as_bytes() {
+        let inc = (c == b'\r' || (c == b'\n' && prev != b'\r')) as u32;
         lb.push(lb.last().unwrap() + inc);
         prev = c;
     }
@@ -562,7 +643,7 @@ fn check_c09(obs: &RunObs) -> Result<(), Violation> {
             if t.line < prev_line || t.line > expected {
                 return Err(Violation::new(
                     "error-token-line-out-of-range",
-                    format!("token #{i} {:?}: line {} not in [{}, {}] (consumed {} chars)", t.ev, t.line, prev_line, expected, consumed),
+                    format!("token #{i} {:?}: line {} not in [{}, {}] (consumed {} bytes)", t.ev, t.line, prev_line, expected, consumed),
                 ));
             }
         } else if t.line != expected {
@@ -570,7 +651,7 @@ fn check_c09(obs: &RunObs) -> Result<(), Violation> {
             return Err(Violation::new(
                 class,
                 format!(
-                    "token #{i} {:?}: line {} but the {} consumed chars contain {} line breaks (expected line {})",
+                    "token #{i} {:?}: line {} but the {} consumed bytes contain {} line breaks (expected line {})",
                     t.ev, t.line, consumed, lb[consumed], expected
                 ),
             ));
